@@ -75,6 +75,8 @@ Single == [kind   |-> "single", size |-> S, a |-> a,
            merge  |-> [k \in 1..(S + 1) |-> Merge(a, S, k - 1)],   \* distance k-1, input SortIvs(a)
            extend |-> [k \in 1..4 |-> [l \in 1..S |->
                           [i \in DOMAIN a |-> ExtendToSize(a[i], Strand(k, i), l, S)]]],
+           \* the same intervals on three contigs of sizes S, S + 1, S + 2 (strand pattern 3): each is clipped at the end of ITS OWN contig
+           extend3 |-> [j \in 1..3 |-> [l \in 1..S |-> [i \in DOMAIN a |-> ExtendToSize(a[i], Strand(3, i), l, S + j - 1)]]],
            strands |-> [k \in 1..4 |-> [i \in DOMAIN a |-> Strand(k, i)]],
            clipin |-> [i \in DOMAIN a |-> Shift(a[i], i)],
            clip   |-> [i \in DOMAIN a |-> Clip(Shift(a[i], i), S)]]
